@@ -150,6 +150,22 @@ def run(ctx):
     # D2
     sf = prog.method("types::model::Model", None, "sunlit_fraction")
     check_exits(ctx, prog, sf)
+    # "no sample points" is how a window without geometric position gets the factor 1: ray_origins_for_window returns an empty list for it
+    rof = prog.method("types::model::Model", None, "ray_origins_for_window")
+    _, rsites = return_sites(prog, rof)
+
+    def empty_vec(n):
+        n = strip(n)
+        return (n[0] == "call" and short_callee(n[1]) == "new" and "Vec" in n[1] and not n[2]) or (n[0] == "agg" and n[1] == "vec" and not n[3])
+    for k, pat, what in (("window-without-position", "window.geometry.position", "a window without geometric position has no sample points (hence factor 1)"),
+                         ("window-without-wall", "get_wall(self,window.wall)", "a window whose wall is missing has no sample points")):
+        hit = [1 for n_, conds, bb in rsites if empty_vec(n_) and conds and conds[-1][0][0] == "discr" and pat in origin_desc(conds[-1][0]) and conds[-1][1] is False]
+        key = "c12.exit|%s" % k
+        if hit:
+            ctx.ok("c12.exit", key, what, rof.loc())
+        else:
+            ctx.violation("c12.exit", key, "ray_origins_for_window has no `return <empty list>` for the case %s is None (its exits: %s): such a window is sampled as if it were "
+                          "somewhere, instead of getting the factor 1" % (pat, [(show(n_)[:30], cond_text(c)[-60:]) for n_, c, b in rsites][:4]), rof.loc())
     # support: an obstacle counts whenever its box and then its polygon are hit (no further condition between the two tests)
     from .. import support as S
     r_ = S.occluder_polygon_test_unconditional(prog)
@@ -207,6 +223,12 @@ def run(ctx):
                 return "0" if pos else "1"
             if n[0] == "call" and short_callee(n[1]) == "is_empty" and "polygon" in d:
                 return "1" if empty else "0"
+            if n[0] == "bin" and n[1] in ("Lt", "Le", "Gt", "Ge", "Eq", "Ne") and "len(" in d and "polygon" in d and strip(n[3])[0] == "k":
+                # a test on the number of corners: the case "not empty" stands for a triangle, the smallest polygon that can hide anything
+                import operator
+                npts = 0 if empty else 3
+                f_ = {"Lt": operator.lt, "Le": operator.le, "Gt": operator.gt, "Ge": operator.ge, "Eq": operator.eq, "Ne": operator.ne}[n[1]]
+                return "1" if f_(npts, float(strip(n[3])[1])) else "0"
             if n[0] == "k" and n[1] in ("true", "false"):
                 return "1" if n[1] == "true" else "0"
             return None
@@ -220,7 +242,7 @@ def run(ctx):
             raise AnalysisError("collect_occluders wall filter not evaluable for (%s,%s,%s): %s" % (bnd, pos, empty, str(r)[:160]))
         want = bnd in ("ADIABATIC", "EXTERIOR") and pos and not empty
         if (v == "1") != want:
-            bad.append("(%s, position=%s, empty polygon=%s) -> %s" % (bnd, pos, empty, v == "1"))
+            bad.append("(%s, position=%s, %s) -> %s" % (bnd, pos, "empty polygon" if empty else "triangle", "occludes" if v == "1" else "ignored"))
     if bad:
         ctx.violation("c12.occluders", "c12.occluders|walls", "occluding walls differ from the statement on %d of 16 cases: %s" % (len(bad), "; ".join(bad[:3])), co.loc())
     else:
@@ -233,7 +255,7 @@ def run(ctx):
         if v is None:
             raise AnalysisError("collect_occluders shade filter not evaluable: %s" % str(r)[:160])
         if (v == "1") != (pos and not empty):
-            bad.append("(position=%s, empty polygon=%s) -> %s" % (pos, empty, v == "1"))
+            bad.append("(position=%s, %s) -> %s" % (pos, "empty polygon" if empty else "triangle", "occludes" if v == "1" else "ignored"))
     if bad:
         ctx.violation("c12.occluders", "c12.occluders|shades", "occluding shades differ on %s" % bad, co.loc())
     else:
@@ -264,6 +286,12 @@ def run(ctx):
         ctx.ok("c12.occluders", "c12.occluders|reveal", "reveal shades are generated for all windows (%s)" % ch.adaptors(), ws.loc())
     else:
         ctx.violation("c12.occluders", "c12.occluders|reveal", "reveal shades are not generated for every window: %s" % (ch.adaptors() if ch else "?"), ws.loc())
+    # ... and they are where the statement puts them: the four surfaces between the wall plane and the window plane (the geometry rule of C13)
+    from ._reveal import check_reveals
+    check_reveals(ctx, "c12.occluders", "c12.occluders")
+    # ... and none of the candidates is forgotten on the way into the acceleration structure (the conservation rule of C13)
+    from .c13 import check_node_list_conservation
+    check_node_list_conservation(ctx, prog, "c12.conserve")
     # candidate filter in sunlit_fraction
     ssc = Scope(prog, sf)
     cf = [ch2 for (b, t, ch2) in ssc.children() if ch2.via[0] == "filter" and ch2.via[1].source_name() == "occluders"]
